@@ -1150,7 +1150,9 @@ void gen_c19(Gen &g) {
       static const long pts[] = {4094, 4095, 4096, 4097, 4098, 8190, 8191, 8192, 8193, 8194, 12286, 12287, 12288, 12289, 12290};
       long idx = (p.run + i * 7) % (65 + 15);
       size = idx < 65 ? idx : pts[idx - 65];
-    } else if (sw < 3)
+    } else if (r.chance(1, 120))
+      size = r.range(5 * 4096, 60 * 4096);  // a large file (block-wise readers, size thresholds)
+    else if (sw < 3)
       size = r.range(0, 64);
     else if (sw < 7)
       size = 4096 * r.range(1, 3) + r.range(-2, 2);
